@@ -97,6 +97,25 @@ func fzOutResPlain() fzOutResP          { return fzOutResP{Svc: &pool.K0{}} }
 func fzMRScope() (*pool.K0, godi.Scope) { return &pool.K0{}, nil }
 func fzOutDupAfterGroup() fzOutDupG     { return fzOutDupG{Hook: &pool.K1{}, A: &pool.K0{}, B: &pool.K0{}} }
 
+// outputs that are struct VALUES of a comparable type whose interface-typed field holds an
+// uncomparable dynamic value (a func): comparing two of them with == panics at run time
+type fzRuleV struct {
+	Rule  any
+	Field string
+}
+type fzOutRules struct {
+	godi.Out
+	A fzRuleV `group:"rules"`
+	B fzRuleV `group:"rules"`
+}
+
+func fzRules() fzOutRules {
+	return fzOutRules{A: fzRuleV{Rule: func() {}, Field: "f"}, B: fzRuleV{Rule: func() {}, Field: "f"}}
+}
+func fzRulesMR() (fzRuleV, fzRuleV) {
+	return fzRuleV{Rule: func() {}, Field: "f"}, fzRuleV{Rule: []int{1}, Field: "f"}
+}
+
 type fzIn struct {
 	godi.In
 	A *pool.K1 `optional:"true"`
@@ -142,6 +161,7 @@ func fuzzServices() []struct {
 		{"pointer-typed-error-result-set", fzPtrErrSet}, {"struct-typed-error-only", fzStructErrOnly},
 		{"out-reserved-type-grouped-last", fzOutResGrouped}, {"out-reserved-type-plain-last", fzOutResPlain}, {"multi-return-reserved-type-last", fzMRScope},
 		{"out-duplicate-after-group-field", fzOutDupAfterGroup},
+		{"out-values-with-uncomparable-dynamic-field", fzRules}, {"multi-return-values-with-uncomparable-dynamic-field", fzRulesMR},
 	}
 }
 
